@@ -11,10 +11,44 @@ def PredOp (P : V → Prop) : Op → Prop
   | .set _ v => P v
   | .emit v => P v
   | .setnested _ _ v => P v
+  | .markdeep _ _ v => P v
   | _ => True
 
 section
 variable {P : V → Prop}
+
+mutual
+theorem markV_pred (hP : ValPred P) {k2 : String} {v : V} (hv : P v) : ∀ x, P x → P (markV k2 v x)
+  | .arr xs, h => by
+    simp only [markV]
+    exact (hP.arr _).mpr (markVs_pred hP hv xs ((hP.arr _).mp h))
+  | .obj kvs, h => by
+    simp only [markV]
+    exact (hP.obj _).mpr (allBs_insertB hv (markKvs_pred hP hv kvs ((hP.obj _).mp h)))
+  | .null, h => by simpa only [markV] using h
+  | .bool _, h => by simpa only [markV] using h
+  | .num _, h => by simpa only [markV] using h
+  | .str _, h => by simpa only [markV] using h
+  | .int _, h => by simpa only [markV] using h
+  | .bobj _, h => by simpa only [markV] using h
+  | .other _, h => by simpa only [markV] using h
+theorem markVs_pred (hP : ValPred P) {k2 : String} {v : V} (hv : P v) :
+    ∀ xs : List V, (∀ x ∈ xs, P x) → ∀ y ∈ markVs k2 v xs, P y
+  | [], _ => by simp [markVs]
+  | x :: xs, h => by
+    intro y hy
+    simp only [markVs, List.mem_cons] at hy
+    rcases hy with hy | hy
+    · subst hy; exact markV_pred hP hv x (h x List.mem_cons_self)
+    · exact markVs_pred hP hv xs (fun z hz => h z (List.mem_cons_of_mem _ hz)) y hy
+theorem markKvs_pred (hP : ValPred P) {k2 : String} {v : V} (hv : P v) :
+    ∀ kvs : List (String × V), AllBs P kvs → AllBs P (markKvs k2 v kvs)
+  | [], _ => by simp [markKvs, AllBs]
+  | (k, x) :: rest, h => by
+    simp only [markKvs]
+    exact allBs_cons (markV_pred hP hv x (h (k, x) List.mem_cons_self))
+      (markKvs_pred hP hv rest (fun z hz => h z (List.mem_cons_of_mem _ hz)))
+end
 
 theorem apply_pred (hP : ValPred P) {o : Op} (ho : PredOp P o) {bs : Bs} {em : List V}
     (hb : AllBs P bs) (he : AllMsgs P em) {bs' : Bs} {em' : List V}
@@ -55,6 +89,13 @@ theorem apply_pred (hP : ValPred P) {o : Op} (ho : PredOp P o) {bs : Bs} {em : L
       exact ⟨allBs_insertB ((hP.obj _).mpr (allBs_insertB ho hm)) hb, he⟩
     · cases h
       exact ⟨allBs_insertB ((hP.obj _).mpr (allBs_cons ho allBs_nil)) hb, he⟩
+  | markdeep k k2 v =>
+    simp only [Op.apply] at h
+    split at h
+    · next x hl =>
+      cases h
+      exact ⟨allBs_insertB (markV_pred hP ho x (all_lookup hb hl)) hb, he⟩
+    · cases h; exact ⟨hb, he⟩
   | rejectUnless k =>
     simp only [Op.apply] at h
     split at h
